@@ -256,6 +256,16 @@ def cds_stage(record, stages) -> None:
     stages["cds_annotations"] = out
 
 
+def add_notes(record, order, prng) -> None:
+    """ several notes per feature, so that their (sorted) order reaches the output """
+    for i, cds in enumerate(record.get_cds_features()):
+        if i % 2 == 0:
+            notes = ["note beta", "note alpha", "note gamma", "another note"]
+            if order:
+                prng.shuffle(notes)
+            cds.notes.extend(notes)
+
+
 def name_record(record) -> None:
     record.id = "c17rec"
     record.name = "c17rec"
@@ -285,6 +295,7 @@ def run_world(case, order, prng):
     stages = {}
     record = W.build_record(world)
     name_record(record)
+    add_notes(record, order, prng)
     ruleset = W.build_ruleset(world, order=rule_order)
     captured = {}
     original = CP.apply_cluster_rules
@@ -348,6 +359,7 @@ def run_layout(case, order, prng):
     name_record(record)
     for g in genes:
         record.add_cds_feature(LW.make_cds(g["name"], g["loc"], g["core"]))
+    add_notes(record, order, prng)
     try:
         for p in protos:
             record.add_protocluster(LW.make_protocluster(p["core"], p["extent"], p["product"], cutoff=10,
@@ -361,6 +373,19 @@ def run_layout(case, order, prng):
 
 
 RUNNERS = {"refine": run_refine, "filter": run_filter, "hmmer": run_hmmer, "world": run_world, "layout": run_layout}
+
+
+def code_fingerprint() -> str:
+    """ digest of the source of every loaded antismash module: the parent refuses to compare children that
+        ran different code (the tree under test may change while a batch is running) """
+    digest = hashlib.sha1()
+    for name in sorted(sys.modules):
+        if name == "antismash" or name.startswith("antismash."):
+            path = getattr(sys.modules[name], "__file__", None)
+            if path and path.endswith(".py") and os.path.exists(path):
+                with open(path, "rb") as handle:
+                    digest.update(name.encode() + b"\0" + handle.read())
+    return digest.hexdigest()[:16]
 
 
 def main() -> int:
@@ -390,7 +415,7 @@ def main() -> int:
             dumps[f"{idx}/{order}"] = stages
     meta = {"hashseed_env": seed_env, "hash_randomization": sys.flags.hash_randomization,
             "hash_probe": hash("c17-probe") & 0xFFFFFFFF, "layout_key": layout_key,
-            "import_s": round(t_imported - t_start, 2), "work_s": round(time.monotonic() - t_imported, 2),
+            "code_fingerprint": code_fingerprint(), "import_s": round(t_imported - t_start, 2), "work_s": round(time.monotonic() - t_imported, 2),
             "repo": os.path.dirname(os.path.dirname(sys.modules["antismash"].__file__))
             if "antismash" in sys.modules else None}
     with open(sys.argv[2], "w", encoding="utf-8") as handle:
